@@ -306,9 +306,68 @@ class Unit:
                 return list(rets[0].value.elts)
         return None
 
+    def is_outer_parameter(self, name):
+        """a name that is neither bound in this subscribe function nor at module level (imports, defs, constants): a parameter / local of the
+        enclosing operator function - for a call target that means a function the USER handed to the operator"""
+        if name in self.local_fns or name in CONTAINER_CTORS or name in ("Disposable", "cast", "getattr", "list", "tuple", "iter", "next", "len", "isinstance"):
+            return False
+        for n in ast.walk(self.fn):
+            if isinstance(n, ast.Name) and n.id == name and isinstance(n.ctx, ast.Store):
+                return False
+            if isinstance(n, ast.arg) and n.arg == name:
+                return False
+        if not hasattr(self, "_module_names"):
+            names = set()
+            try:
+                tree = Loader().load_file(self.rel).tree
+                for st in tree.body:
+                    if isinstance(st, (ast.Import, ast.ImportFrom)):
+                        names.update((a.asname or a.name).split(".")[0] for a in st.names)
+                    elif isinstance(st, (ast.FunctionDef, ast.AsyncFunctionDef, ast.ClassDef)):
+                        names.add(st.name)
+                    elif isinstance(st, ast.Assign):
+                        names.update(t.id for t in st.targets if isinstance(t, ast.Name))
+                    elif isinstance(st, ast.AnnAssign) and isinstance(st.target, ast.Name):
+                        names.add(st.target.id)
+            except Exception:  # noqa: BLE001
+                names = None
+            self._module_names = names
+        if self._module_names is None:
+            return False
+        import builtins as _b
+        return name not in self._module_names and not hasattr(_b, name)
+
+    def surely_a_disposable(self, v, depth=0):
+        """the expression is a disposable made here (a container / Disposable constructor, a subscription or scheduling call) - so NOT a list"""
+        if self.is_resource_expr(v):
+            return True
+        if isinstance(v, ast.Call) and isinstance(v.func, ast.Name) and (v.func.id in CONTAINER_CTORS or v.func.id in ("Disposable", "BooleanDisposable", "cast")):
+            return v.func.id != "cast" or (len(v.args) == 2 and self.surely_a_disposable(v.args[1], depth))
+        if isinstance(v, ast.Name) and depth < 3:
+            f = self.enclosing_fn(v) or self.fn
+            vals = []
+            for n in ast.walk(f):
+                if isinstance(n, ast.Assign) and any(isinstance(t, ast.Name) and t.id == v.id for t in n.targets):
+                    vals.append(n.value)
+                elif isinstance(n, ast.AnnAssign) and isinstance(n.target, ast.Name) and n.target.id == v.id and n.value is not None:
+                    vals.append(n.value)
+            return bool(vals) and all(self.surely_a_disposable(x, depth + 1) for x in vals)
+        return False
+
     def may_be_list(self, v, depth=0):
         if isinstance(v, (ast.List, ast.ListComp)):
             return True
+        if isinstance(v, ast.Name) and depth < 3 and not self.surely_a_disposable(v):
+            # what a USER's factory returned (a call of a parameter of the operator - resource_factory() in using): nothing says it is not a
+            # list (subclass).  Results of the library's own calls (scheduler methods, helpers, module-level functions) are not suspected.
+            f = self.enclosing_fn(v) or self.fn
+            for b in ast.walk(f):
+                if isinstance(b, ast.Assign) and any(isinstance(t, ast.Name) and t.id == v.id for t in b.targets):
+                    val = b.value
+                    if isinstance(val, ast.Call) and isinstance(val.func, ast.Name) and self.is_outer_parameter(val.func.id):
+                        return True
+                    if isinstance(val, ast.Name) and val.id != v.id and self.may_be_list(val, depth + 1):
+                        return True
         if isinstance(v, ast.BinOp) and isinstance(v.op, ast.Add):
             return self.may_be_list(v.left, depth) or self.may_be_list(v.right, depth)
         if isinstance(v, ast.Call) and isinstance(v.func, ast.Name) and v.func.id in ("list", "sorted"):
@@ -735,6 +794,8 @@ def run_unit(desc, loader=None, only=None):
     for rel in target_files(loader):
         if only is not None and rel != only:
             continue
+        if desc.get("files") and rel not in desc["files"]:
+            continue  # (a property that re-proves the ownership contracts of its own anchor files only)
         tree = loader.load_file(rel).tree
         for (fn, qual, why) in subscribe_functions(tree):
             u = Unit(rel, fn, qual, why)
